@@ -26,13 +26,15 @@ Clauses(t) ==
      <<"same-point-structure", ~Has(t, "err") => t.structSame>>,
      <<"outline-within-one-unit", ~Has(t, "err") => t.outlineDiffMilli <= 1000>>,
      <<"advance-within-one-unit", ~Has(t, "err") => t.advDiff <= 1>>,
-     <<"compile-variable-protocol", ~Has(t, "err") => ProtocolOK(t)>> >>
+     <<"compile-variable-protocol", ~Has(t, "err") => ProtocolOK(t)>>,
+     \* FeaPipeline!OnlyAdds observed on the Writer hook events (statement texts of the shared feature file)
+     <<"writers-only-add", (~Has(t, "err") /\ Has(t, "writersOnlyAdd")) => t.writersOnlyAdd>> >>
 Init == i = 1
 Next == /\ i <= Len(Traces)
         /\ LET t == Traces[i]  cl == Clauses(t)  bad == {k \in 1..Len(cl) : ~cl[k][2]}
                p == IF bad = {} THEN "none" ELSE cl[CHOOSE k \in bad : \A j \in bad : k <= j][1]
-           IN PrintT(<<"VERDICT", t.tid, IF p = "compile-variable-protocol" THEN "none" ELSE p,
-                       IF p = "compile-variable-protocol" THEN p ELSE "none">>)
+           IN PrintT(<<"VERDICT", t.tid, IF p \in {"compile-variable-protocol", "writers-only-add"} THEN "none" ELSE p,
+                       IF p \in {"compile-variable-protocol", "writers-only-add"} THEN p ELSE "none">>)
         /\ i' = i + 1
 Spec == Init /\ [][Next]_i
 =============================================================================
